@@ -21,7 +21,11 @@
     neighbours, same-seed repeats of projects with equally named types / inherited generic bindings / internal
     procedures (object ids vary from process to process); recursive byte comparison; ANY difference is a
     VIOLATION.
-(c) the process pool (pool): graph: true with graph_dir set, parallel in {0, 2, 3, 8} on generated projects whose
+(c) output directory inside a source directory (stale_nested, forced in every run): src_dir: . with ./doc or
+    `-o out2` below it, a page directory holding a Fortran file, incl_src false / true, `--exclude_dir` on the command
+    line; output directory absent / left by the same project / left by another project with src/*.f90; plus
+    find_all_files itself against Out/Project.v sources.  Any difference is a failing input.
+    the process pool (pool): graph: true with graph_dir set, parallel in {0, 2, 3, 8} on generated projects whose
     number of graph tasks exceeds and is not a multiple of the worker counts; the full trees (doc/ and the graph
     directory) must equal those of parallel: 0; a missing or extra file is a failing input.
 (d) findings: the one open finding is replayed (KNOWN-FINDING line); the witnesses of the fixed findings are
